@@ -196,6 +196,19 @@ class EngineBase:
             raise Unsupported("set field sort requested directly")
         return z3.ArraySort(RefS, sort_of(ty))
 
+    def kernel_signal_class(self, e):
+        """signals are created by the framework only (closed world): the dynamic class of a delivered signal is
+        Interrupt or one of the repository's subclasses of it, exactly"""
+        base = self.repo.cls("Interrupt")
+        names = []
+        for lst in self.repo.classes_by_name.values():
+            for ci in lst:
+                if base in self.repo.mro(ci) and ci.name not in names:
+                    names.append(ci.name)
+        self.assumptions_used.add("closed world for kernel signals: a delivered signal is an instance of Interrupt or of one of the "
+                                  "repository's subclasses of it (%s)" % ", ".join(sorted(names)))
+        return z3.Or(*[cls_of(e) == cls_const(n) for n in sorted(names)])
+
     def set_sort(self):
         return z3.ArraySort(RefS, z3.ArraySort(RefS, z3.BoolSort()))
 
